@@ -223,7 +223,7 @@ def tally(st, b, mi, v):
 
 def all_cases(run):
     cs = set(x86space.cases(run.tier, run.seed))
-    cs |= set(x86space.sib_grid()) | set(x86space.modrm_grid()) | set(x86space.x87_cases()) | set(x86space.control_flow_cases()) | set(x86space.boundary_value_cases())
+    cs |= set(x86space.sib_grid()) | set(x86space.modrm_grid()) | set(x86space.segment_grid(*run.pick(((b"\x8b", b"\xff", b"\x0f\xb6"),), ()))) | set(x86space.x87_cases()) | set(x86space.control_flow_cases()) | set(x86space.boundary_value_cases())
     return sorted(cs)
 
 
